@@ -7,6 +7,8 @@ From Coq Require Import List NArith.
 From Coq.Strings Require Import Byte.
 From GI Require Import Gen.LockedFileConsts LockedFile.LockedFile LockedFile.LockBasics LockedFile.LockProofs LockedFile.MutexFacts
   LockedFile.LockedFileA LockedFile.LockProofsA.
+From GI Require Import LockedFile.Policy LockedFile.PolicyProofs LockedFile.PolicyCall.
+From GI Require Import LockedFile.ApiCloses.
 Import ListNotations.
 
 Theorem C06_write_flags_exclusive : forall flags,
@@ -206,3 +208,73 @@ Theorem C06_denied_client_never_locks : forall cfg f sched c,
   fds (st_os s) c = None /\ status s c = SIdle /\ files (st_os s) (ca_ino (cfg c)) <> None.
 Proof. exact denied_client_never_locks. Qed.
 Print Assumptions C06_denied_client_never_locks.
+
+(* ---- "…and is released by that call", on EVERY path (Policy.v: the fault of each operation is
+   chosen by an arbitrary policy that sees the whole history — one-shot or persistent failures of
+   open, flock, read, write, truncate, close).  OpenFile(fl); any I/O-only body; Close, started by
+   a caller without a descriptor, others possibly holding locks: if the call returns, the caller
+   holds no descriptor and no lock on the file, and opens and closes balance *)
+Theorem C06_released_on_every_path : forall i c fl b pol h s,
+  io_only b -> fds s c = None -> locked c (ltab s i) = None -> refs s c = 0 ->
+  match run_pol i c (client_prog fl b) pol h s with
+  | (h', Finished _, s') =>
+      fds s' c = None /\ (forall k, holds c k (ltab s' i) = false) /\
+      opens h' + closes h = closes h' + opens h
+  | (_, Blocked, _) => True
+  end.
+Proof. exact released_on_every_path. Qed.
+Print Assumptions C06_released_on_every_path.
+
+(* every API call: Read, Write, Transform (any function), Create/Edit/Open/OpenFile + I/O + Close,
+   Mutex.Lock + unlock *)
+Theorem C06_api_released_on_every_path : forall i c (cl : call) pol s,
+  wf_call cl -> fds s c = None -> locked c (ltab s i) = None -> refs s c = 0 ->
+  match run_pol i c (prog_of_call cl) pol [] s with
+  | (h', Finished _, s') =>
+      fds s' c = None /\ (forall k, holds c k (ltab s' i) = false) /\ opens h' = closes h'
+  | (_, Blocked, _) => True
+  end.
+Proof. exact api_released_on_every_path. Qed.
+Print Assumptions C06_api_released_on_every_path.
+
+Theorem C06_fd_balanced : forall i c (cl : call) pol s,
+  wf_call cl -> fds s c = None -> locked c (ltab s i) = None -> refs s c = 0 ->
+  match run_pol i c (prog_of_call cl) pol [] s with
+  | (h', Finished _, s') => opens h' = closes h' /\ fds s' c = None
+  | (_, Blocked, _) => True
+  end.
+Proof. exact fd_balanced. Qed.
+Print Assumptions C06_fd_balanced.
+
+(* Write with ANY content reader (io.Copy: one write per delivered chunk, then the reader's own
+   error) is such a call *)
+Theorem C06_writer_is_an_api_call : forall chunks rerr, wf_call (writer_call chunks rerr).
+Proof. exact wf_writer_call. Qed.
+Print Assumptions C06_writer_is_an_api_call.
+
+(* Close under any faults: the file is untouched, the descriptor closed, the lock gone *)
+Theorem C06_close_releases_under_faults : forall i c x pol h s,
+  isopen (fds s c) = true -> refs s c = 0 ->
+  exists h' s', run_pol i c (close_part x) pol h s = (h', Finished x, s') /\
+    files s' = files s /\ fds s' c = None /\ locked c (ltab s' i) = None.
+Proof. exact run_pol_close_part. Qed.
+Print Assumptions C06_close_releases_under_faults.
+
+(* the policy semantics extends the position-plan semantics the other fault theorems use *)
+Theorem C06_policies_extend_plans : forall i c p plan h s,
+  run_pol i c p (pol_of_plan plan) h s =
+  match run_seq i c p plan (length h) s with
+  | (tr, out, s') => (rev tr ++ h, out, s')
+  end.
+Proof. exact PolicyTransform.run_pol_plan. Qed.
+Print Assumptions C06_policies_extend_plans.
+
+(* the structure of the source these programs rely on (regenerated from the AST on every run):
+   Read, Write and Transform close the File they acquired before any statement that can return,
+   and the unlock function of Mutex.Lock calls Close *)
+Theorem C06_api_closes_on_every_path :
+  read_closes_on_every_path = true /\ write_closes_on_every_path = true /\
+  transform_closes_on_every_path = true /\ mutex_unlock_closes = true.
+Proof. exact api_closes_on_every_path. Qed.
+Print Assumptions C06_api_closes_on_every_path.
+
